@@ -36,7 +36,7 @@ def spec : List (String × List String) := [
   ("_locked_table_clear", ["clear"]), ("_locked_table_insert", ["insert"]), ("_locked_table_erase_it", ["erase"]),
   ("_locked_table_erase_const_it", ["erase"]), ("_locked_table_erase", ["erase"]), ("_locked_table_find", ["find"]),
   ("_locked_table_find_const", ["find"]), ("_locked_table_rehash", ["rehash"]), ("_locked_table_reserve", ["reserve"]),
-  ("_locked_table_write", ["size"]),
+  ("_locked_table_write", ["begin", "end", "size"]),   -- the loop over the elements (a range-based for is begin()/end())
   ("_iterator_set", []), ("_const_iterator_set", []),
   ("_locked_table_set_begin", ["begin"]), ("_locked_table_set_cbegin", ["cbegin"]),
   ("_locked_table_set_end", ["end"]), ("_locked_table_set_cend", ["cend"]),
